@@ -524,6 +524,88 @@ nfa, with no epsilon transition
                         end_to_end = symbol_str
         return start_to_start, start_to_end, end_to_start, end_to_end
 
+    def union(self, other: "EpsilonNFA") -> "EpsilonNFA":
+        """ Makes the union of two automata
+
+        The construction works on the automata themselves, so that the \
+        symbols are kept as they are (and not as their representation in \
+        a regular expression).
+
+        Parameters
+        ----------
+        other : :class:`~pyformlang.finite_automaton.EpsilonNFA`
+            The other automaton
+
+        Returns
+        ----------
+        enfa : :class:`~pyformlang.finite_automaton.EpsilonNFA`
+            The union of the two automata
+        """
+        if not isinstance(other, EpsilonNFA):
+            return super().union(other)
+        enfa = EpsilonNFA()
+        for tag, automaton in enumerate((self, other)):
+            starts, finals = _add_tagged_copy(enfa, automaton, tag)
+            for state in starts:
+                enfa.add_start_state(state)
+            for state in finals:
+                enfa.add_final_state(state)
+        return enfa
+
+    def concatenate(self, other: "EpsilonNFA") -> "EpsilonNFA":
+        """ Concatenates two automata
+
+        The construction works on the automata themselves, so that the \
+        symbols are kept as they are (and not as their representation in \
+        a regular expression).
+
+        Parameters
+        ----------
+        other : :class:`~pyformlang.finite_automaton.EpsilonNFA`
+            The other automaton
+
+        Returns
+        ----------
+        enfa : :class:`~pyformlang.finite_automaton.EpsilonNFA`
+            The concatenation of the two automata
+        """
+        if not isinstance(other, EpsilonNFA):
+            return super().concatenate(other)
+        enfa = EpsilonNFA()
+        starts, finals = _add_tagged_copy(enfa, self, 0)
+        starts_other, finals_other = _add_tagged_copy(enfa, other, 1)
+        for state in starts:
+            enfa.add_start_state(state)
+        for state in finals_other:
+            enfa.add_final_state(state)
+        for final in finals:
+            for start in starts_other:
+                enfa.add_transition(final, Epsilon(), start)
+        return enfa
+
+    def kleene_star(self) -> "EpsilonNFA":
+        """ Makes the kleene star of the current automaton
+
+        The construction works on the automaton itself, so that the \
+        symbols are kept as they are (and not as their representation in \
+        a regular expression).
+
+        Returns
+        ----------
+        enfa : :class:`~pyformlang.finite_automaton.EpsilonNFA`
+            The kleene star of the current automaton
+        """
+        enfa = EpsilonNFA()
+        starts, finals = _add_tagged_copy(enfa, self, 0)
+        new_state = State((1, "kleene_star"))
+        enfa.add_start_state(new_state)
+        enfa.add_final_state(new_state)
+        for start in starts:
+            enfa.add_transition(new_state, Epsilon(), start)
+        for final in finals:
+            enfa.add_transition(final, Epsilon(), new_state)
+        return enfa
+
     def get_complement(self) -> "EpsilonNFA":
         """ Get the complement of the current Epsilon NFA
 
@@ -1045,3 +1127,18 @@ class StateMerger:
 def combine_state_pair(state0, state1):
     """ Combine two states """
     return State(str(state0.value) + "; " + str(state1.value))
+
+
+def _add_tagged_copy(enfa, automaton, tag):
+    """ Adds to enfa the symbols and the transitions of an other automaton, \
+    every state s being named (tag, s) so that the states of two operands \
+    cannot collide. Returns the new names of the start and final states. """
+    for symbol in automaton.symbols:
+        enfa.add_symbol(symbol)
+    for s_from, symb_by, s_to in automaton:
+        enfa.add_transition(State((tag, s_from.value)),
+                            symb_by,
+                            State((tag, s_to.value)))
+    starts = [State((tag, x.value)) for x in automaton.start_states]
+    finals = [State((tag, x.value)) for x in automaton.final_states]
+    return starts, finals
